@@ -3,10 +3,12 @@ import SimVerif.Driver.Constr
 import SimVerif.Driver.Vote
 import SimVerif.Driver.Feat
 import SimVerif.Driver.Geom
+import SimVerif.Driver.Store
 open SimVerif SimVerif.Wire SimVerif.Driver
 
 structure DState where
   constr : ConstrD.St := {}
+  store : StoreD.St := {}
 
 /-- one request per line: `<family> <args…> => <implementation's answer…>`; one answer per line -/
 def step (st : DState) (line : String) : DState × String :=
@@ -15,6 +17,8 @@ def step (st : DState) (line : String) : DState × String :=
   match req with
   | "case" :: _ => ({}, "C")
   | "nms" :: args => (st, NmsD.handle args impl)
+  | "track" :: args => let (s, r) := StoreD.handleTrack st.store args impl; ({ st with store := s }, r)
+  | "store" :: args => let (s, r) := StoreD.handleStore st.store args impl; ({ st with store := s }, r)
   | "box" :: args => (st, GeomD.handleBox args impl)
   | "geom" :: args => (st, GeomD.handleGeom args impl)
   | "feat" :: args => (st, FeatD.handle args impl)
